@@ -40,7 +40,8 @@ GeoFails(e) ==
             \/ ~Close(o.swtot4, SumN(LAMBDA a : o.sw4[a], 1, n), n + 2)
         THEN {"Consistent|total_node_weight(irrigation)"} ELSE {})
   \* the distances the grid serves after a network on it has been analysed are the same distances
-  \cup (IF o.ang2 # o.ang THEN {"Stable|angular_distance"} ELSE {})
+  \cup (IF o.ang2 # o.ang \/ o.ang3 # o.ang THEN {"Stable|angular_distance"} ELSE {})
+  \cup (IF o.lat_after # e.lat \/ o.lon_after # e.lon THEN {"Stable|coordinates"} ELSE {})
 EucFails(e) ==
   LET o == e.obs  n == Len(e.pts) IN
   (IF o.sym # 1 \/ o.diag0 # 1 THEN {"Symmetric|euclidean_distance"} ELSE {})
